@@ -290,7 +290,7 @@ func (h *HttpServer) handleStreamInit(w http.ResponseWriter, r *http.Request) {
 		handlerErr = err
 		if err == nil && !finished {
 			// Batch limit reached — append continuation token
-			token, tokenErr := h.packCursorToken(callID, state, auth)
+			token, tokenErr := h.packCursorTokenFor(info.Name, callID, state, auth)
 			callToken, callErr := h.packCallToken(callID, outputSchema, auth, streamID)
 			if tokenErr != nil {
 				handlerErr = tokenErr
@@ -309,7 +309,7 @@ func (h *HttpServer) handleStreamInit(w http.ResponseWriter, r *http.Request) {
 		}
 	} else {
 		// Exchange init — return state token (carry schema for dynamic methods)
-		token, err := h.packCursorToken(callID, state, auth)
+		token, err := h.packCursorTokenFor(info.Name, callID, state, auth)
 		if err != nil {
 			h.writeHttpError(w, http.StatusInternalServerError, err, nil)
 			return
@@ -486,6 +486,14 @@ func (h *HttpServer) handleStreamExchange(w http.ResponseWriter, r *http.Request
 		h.writeHttpError(w, http.StatusBadRequest, err, nil)
 		return
 	}
+	// A cursor only resumes the method that minted it. Checked before the
+	// state is touched: another method's state must not run under this
+	// route's schemas, hooks or rehydration.
+	if tokenData.Method != info.Name {
+		h.writeHttpError(w, http.StatusBadRequest,
+			&RpcError{Type: "RuntimeError", Message: "State token was not issued for this method"}, nil)
+		return
+	}
 	call, err := h.resolveCall(tokenData, callTokenBytes, auth)
 	if err != nil {
 		h.writeHttpError(w, http.StatusBadRequest, err, nil)
@@ -578,9 +586,21 @@ func (h *HttpServer) handleStreamExchange(w http.ResponseWriter, r *http.Request
 	}
 
 	if isProducer {
-		handlerErr = h.handleProducerContinuation(ctx, w, outputSchema, tokenData.State.(ProducerState), info, stats, auth, transportMeta, cookies, streamID, tokenData.CallID, stickySinkForCtx, inputMeta)
+		producerState, ok := tokenData.State.(ProducerState)
+		if !ok {
+			handlerErr = &RpcError{Type: "RuntimeError", Message: "State token does not carry a producer state"}
+			h.writeHttpError(w, http.StatusBadRequest, handlerErr, nil)
+			return
+		}
+		handlerErr = h.handleProducerContinuation(ctx, w, outputSchema, producerState, info, stats, auth, transportMeta, cookies, streamID, tokenData.CallID, stickySinkForCtx, inputMeta)
 	} else {
-		handlerErr = h.handleExchangeCall(ctx, w, inputBatch, inputMeta, outputSchema, tokenData.State.(ExchangeState), info, stats, auth, transportMeta, cookies, streamID, tokenData.CallID, stickySinkForCtx)
+		exchangeState, ok := tokenData.State.(ExchangeState)
+		if !ok {
+			handlerErr = &RpcError{Type: "RuntimeError", Message: "State token does not carry an exchange state"}
+			h.writeHttpError(w, http.StatusBadRequest, handlerErr, nil)
+			return
+		}
+		handlerErr = h.handleExchangeCall(ctx, w, inputBatch, inputMeta, outputSchema, exchangeState, info, stats, auth, transportMeta, cookies, streamID, tokenData.CallID, stickySinkForCtx)
 	}
 }
 
@@ -639,7 +659,7 @@ func (h *HttpServer) handleProducerContinuation(ctx context.Context, w http.Resp
 	finished, err := h.runProduceLoop(ctx, writer, schema, state, info, stats, auth, transportMeta, cookies, sink, stripFrameworkTickMetadata(requestMeta))
 	if err == nil && !finished {
 		// Batch limit reached — append continuation token
-		token, tokenErr := h.packCursorToken(callID, state, auth)
+		token, tokenErr := h.packCursorTokenFor(info.Name, callID, state, auth)
 		if tokenErr != nil {
 			err = tokenErr
 		} else if werr := writeStateTokenBatch(writer, schema, token, nil); werr != nil {
@@ -721,7 +741,7 @@ func (h *HttpServer) handleExchangeCall(ctx context.Context, w http.ResponseWrit
 	}
 
 	// Serialize updated state into new token (carry schema for dynamic methods)
-	newToken, err := h.packCursorToken(callID, state, auth)
+	newToken, err := h.packCursorTokenFor(info.Name, callID, state, auth)
 	if err != nil {
 		out.releaseBatches()
 		h.logIPCWriteErr("error-batch", info.Name, writeErrorBatch(writer, schema, err, h.server.serverID, "", h.server.debugErrors))
